@@ -71,6 +71,16 @@ def check_case(case, ctx=None):
         gfi.check_trace_against_model(tri, node, nargs, dict(casg), "importance-trace:", case, Violation, allow_fresh=True)
         if ctx is not None:
             ctx.count("importance-trace" + (":masked-values" if any(m is not None for _i, _u, m in case["picks"]) else ""))
+    # a trace produced by an index edit of a top-level vector combinator carries the exact joint density too
+    if node["k"] in ("vmap", "repeat", "scan") and node["n"] >= 1 and case.get("picks"):
+        from vpbt import gfi_hist
+
+        hcase = {"node": node, "args": case["args"], "key": case["key"], "flag_repr": case.get("flag_repr", "arr"), "idx_repr": case.get("idx_repr", "arr"),
+                 "init": {"kind": "simulate", "picks": [], "style": "or"},
+                 "ops": [{"op": "index", "idx": case["picks"][0][0], "sub": "update", "picks": [[p_[0], p_[1]] for p_ in case["picks"]], "style": "or"}]}
+        gfi_hist.run_history(hcase, {"weight"})
+        if ctx is not None:
+            ctx.count("index-edit-trace")
     # assess on the trace's own values (values fed back as a freshly built choice map)
     asg = run.assignment()
     sample = gfi.build_chm(asg, style=case.get("chm_style", "or"))
